@@ -779,6 +779,10 @@ fn gen_strings(rng: &mut Rng, n: u64) -> Vec<String> {
         if a < alpha.len() { s.push(alpha[a]); } if b < alpha.len() { s.push(alpha[b]); } if c < alpha.len() { s.push(alpha[c]); }
         v.push(s);
     } } }
+    // every well-formed token of every shape with a weight text denoting more than 1 (must be rejected or clamped, C10)
+    for (t, _) in all_token_shapes().iter() {
+        for w in [":1.5", ":1.05", ":1.0000002", ":1.999"] { v.push(format!("{}{}", t, w)); }
+    }
     // token-shaped strings with arbitrary (also reversed / degenerate) ranks and odd weights
     let ws = ["", ":1", ":0", ":0.5", ":1.5", ":1.0000001", ":2", ":.5", ":1.", ":0.999999999999", ":-1", ":1e3", ":inf", ":nan"];
     for _ in 0..n {
@@ -1263,8 +1267,42 @@ pub fn check_c08big(players: usize, combos: usize) -> Result<String, String> {
     }
 }
 
+/// C08 at a full table: `players` one-combo ranges (player i holds cards 2i and 2i+1, optionally seated in reverse),
+/// drained to the end on a 2 MiB stack: every seat wins on some board, so per-seat bookkeeping narrower than the
+/// table (a u8 / u16 / u32 mask, a fixed array) is exercised
+pub fn check_c08table(players: usize, reverse: bool) -> Result<String, String> {
+    let flop = [card(51), card(50), card(49)];
+    let mut ranges: Vec<HandRange> = (0..players).map(|i| std::iter::once((CardPair::new(card(2 * i), card(2 * i + 1)), 1.0f32)).collect()).collect();
+    if reverse { ranges.reverse(); }
+    let board = [Some(flop[0]), Some(flop[1]), Some(flop[2]), None, None];
+    let h = std::thread::Builder::new().stack_size(2 * 1024 * 1024).spawn(move || {
+        let e = FlopExhaustiveEvaluator::new(&board, &ranges);
+        let mut wins = vec![0usize; players];
+        let mut n = 0usize;
+        for sd in e.into_iter() { n += 1; for (i, p) in sd.players().iter().enumerate() { if p.is_winner() { wins[i] += 1; } } }
+        (n, wins)
+    }).unwrap();
+    match h.join() {
+        Ok((n, wins)) => {
+            let free = 49 - 2 * players;
+            if n != free * (free - 1) / 2 { return Err(format!("{} one-combo players{}: {} showdowns, expected {}", players, if reverse { " (reversed)" } else { "" }, n, free * (free - 1) / 2)); }
+            Ok(format!("{} players: {} showdowns, wins per seat {:?}", players, n, wins))
+        }
+        Err(_) => Err(format!("{} one-combo players{}: panic while enumerating", players, if reverse { " (reversed)" } else { "" })),
+    }
+}
+
 pub fn c08big_search() -> i32 {
     std::panic::set_hook(Box::new(|_| {}));
+    for (i, p) in [9usize, 10, 16, 17, 23].iter().enumerate() {
+        for rev in [false, true] {
+            if let Err(e) = check_c08table(*p, rev) {
+                println!("WITNESS c08table {} {} :: {}", p, if rev { 1 } else { 0 }, e);
+                println!("SEARCH tried={} found=1", 2 * i + 1);
+                return 1;
+            }
+        }
+    }
     let cases = [(4usize, 256usize), (5, 100), (4, 1081), (8, 256), (7, 1000), (9, 255)];
     for (i, (p, c)) in cases.iter().enumerate() {
         if let Err(e) = check_c08big(*p, *c) {
